@@ -126,12 +126,10 @@ impl Preferences{
         }
 
         let doc = &docs[0];
-        if cfg!(debug_assertions) {
-            verify_keys(doc, "Speech", file_name)?;
-            verify_keys(doc, "Navigation", file_name)?;
-            verify_keys(doc, "Braille", file_name)?;
-            verify_keys(doc, "Other", file_name)?;
-        }
+        verify_keys(doc, "Speech", file_name)?;
+        verify_keys(doc, "Navigation", file_name)?;
+        verify_keys(doc, "Braille", file_name)?;
+        verify_keys(doc, "Other", file_name)?;
 
         let prefs = &mut base_prefs.prefs;
         add_prefs(prefs, &doc["Speech"], "", file_name);
